@@ -1,7 +1,7 @@
 (* General tie, forward 5/3 lifting, even = false. *)
 From V Require Import Common.Base Tie.GoSem Gen.KernelsSlices_gen.
 Require V.DWT.DwtModel.
-From Scr Require Import DwtTieLib DwtTieFwdOddLoops DwtTieFwdEven.
+From V Require Import Tie.DwtTieLib Tie.DwtTieFwdOddLoops Tie.DwtTieFwdEven.
 
 Definition hi_odd (x : list Z) : list Z :=
   let w := length x in let sn := Nat.div2 w in
